@@ -818,24 +818,35 @@ func matrix(r *runner) {
 
 // ------------------------------------------------------------ known stream
 
-// A method parameter declared with the type parameter (`function take(T $x)`) is not a member the
-// model covers: the code never substitutes it (data.Generic.Is answers true for every value), so
-// it is unenforced for every instantiation, independently of any history. Confirmed each run.
+// A method or constructor parameter declared with the type parameter (`function take(T $x)`,
+// `__construct(T $x)`) is not a member Model.Gen covers (its members are properties). Until the
+// repairs 1dc386c / 3703564 it was unenforced for every instantiation (known finding
+// gen:param-unenforced); now it must accept exactly the values of the instance's own type argument,
+// whatever other instantiations exist. Checked on every run by an oracle (no model).
 const sigParam = "gen:param-unenforced"
 
 func knownStream(c *vh.Ctx) {
-	src := "<?php\nclass KBox<T> { public T $p0; public function take(T $x) { return 1; } }\n" +
-		"$b = new KBox<int>();\n" +
+	src := "<?php\nclass KBox<T> { public T $p0; public function __construct(T $init = null, int $n = 0) { } public function take(T $x) { return 1; } }\n" +
+		"$b = new KBox<int>();\n$s = new KBox<string>();\n" +
 		"try { $b->take(\"s\"); echo \"\\n0:ok\\n\"; } catch (\\Throwable $e) { echo \"\\n0:ERR:\", $e->getMessage(), \"\\n\"; }\n" +
-		"try { $b->take(7); echo \"\\n1:ok\\n\"; } catch (\\Throwable $e) { echo \"\\n1:ERR:\", $e->getMessage(), \"\\n\"; }\n"
-	out := outcomes(vh.RunFresh(src), 2)
-	c.Hit("known-stream:param:" + out[0])
-	if out[1] != "ok" {
-		c.Mismatch(map[string]any{"kind": "param", "script": src}, strings.Join(out, " "), "? ok", "known stream: a method parameter declared T no longer accepts a value of the instance's own type argument")
-		return
-	}
-	if out[0] == "ok" {
-		c.Violation(sigParam, "class KBox<T> { function take(T $x) … }: (new KBox<int>())->take(\"s\") is accepted — parameters declared with the type parameter are not checked against the instantiation's type argument (data.Generic.Is is a TODO that answers true)", map[string]any{"kind": "param"})
+		"try { $b->take(7); echo \"\\n1:ok\\n\"; } catch (\\Throwable $e) { echo \"\\n1:ERR:\", $e->getMessage(), \"\\n\"; }\n" +
+		"try { $s->take(7); echo \"\\n2:ok\\n\"; } catch (\\Throwable $e) { echo \"\\n2:ERR:\", $e->getMessage(), \"\\n\"; }\n" +
+		"try { $s->take(\"s\"); echo \"\\n3:ok\\n\"; } catch (\\Throwable $e) { echo \"\\n3:ERR:\", $e->getMessage(), \"\\n\"; }\n" +
+		"try { new KBox<int>(\"s\"); echo \"\\n4:ok\\n\"; } catch (\\Throwable $e) { echo \"\\n4:ERR:\", $e->getMessage(), \"\\n\"; }\n" +
+		"try { new KBox<int>(7); echo \"\\n5:ok\\n\"; } catch (\\Throwable $e) { echo \"\\n5:ERR:\", $e->getMessage(), \"\\n\"; }\n" +
+		"try { new KBox<string>(\"s\", \"notint\"); echo \"\\n6:ok\\n\"; } catch (\\Throwable $e) { echo \"\\n6:ERR:\", $e->getMessage(), \"\\n\"; }\n" +
+		"try { new KBox<string>(\"s\", 3); echo \"\\n7:ok\\n\"; } catch (\\Throwable $e) { echo \"\\n7:ERR:\", $e->getMessage(), \"\\n\"; }\n"
+	out := outcomes(vh.RunFresh(src), 8)
+	want := []bool{false, true, false, true, false, true, false, true} // accepted?
+	what := []string{"(new KBox<int>())->take(\"s\")", "(new KBox<int>())->take(7)", "(new KBox<string>())->take(7)", "(new KBox<string>())->take(\"s\")",
+		"new KBox<int>(\"s\")", "new KBox<int>(7)", "new KBox<string>(\"s\", \"notint\")", "new KBox<string>(\"s\", 3)"}
+	for i, w := range want {
+		got := out[i] == "ok"
+		c.Hit(fmt.Sprintf("param-stream:%d:%v", i, got))
+		if got != w {
+			verb := map[bool]string{true: "accepted", false: "rejected"}
+			c.Violation(sigParam, fmt.Sprintf("class KBox<T> { __construct(T $init, int $n) … take(T $x) … }: %s is %s (%s); a parameter declared with the type parameter accepts exactly the values of the instance's own type argument", what[i], verb[got], out[i]), map[string]any{"kind": "param"})
+		}
 	}
 }
 
